@@ -1,6 +1,18 @@
 // ---- ZmqMessage (src/message.rs): real items, contracts over the Seq view ----
 //@ item src/message.rs :: struct ZmqMessage
+//@ drop-derive Clone
 //@ end
+// derive(Clone) dropped (D3): Verus gives derived non-Copy clones no spec; the impl the derive generates is written
+// out and verified against vstd's VecDeque::clone and the assumed Bytes::clone.
+impl Clone for ZmqMessage {
+    fn clone(&self) -> (r: Self)
+        ensures r.fr() == self.fr(),
+    {
+        let r = ZmqMessage { frames: self.frames.clone() };
+        proof { assert(r.frames@ =~= self.frames@); }
+        r
+    }
+}
 
 pub open spec fn frames_view(s: Seq<Bytes>) -> Seq<Seq<u8>> {
     s.map_values(|b: Bytes| b_view(&b))
